@@ -51,8 +51,8 @@ DNext == DStim \/ DInternal \/ DHold
 DSpec == DInit /\ [][DNext]_dvars
 
 AllInv == /\ QuiescentAnnounced /\ DeliveryInAnnouncedEpoch /\ NoSilentDropAtQuiescence /\ RequestsNamedAndCurrent
-          /\ QuiescentWants /\ OneActiveSession /\ OneActiveListen /\ NoLeftovers /\ MailboxExclusive /\ WantsMatch /\ UsurpedWasReplaced
+          /\ QuiescentWants /\ OneActiveSession /\ OneActiveListen /\ NoLeftovers /\ MailboxExclusive /\ WantsMatch /\ UsurpedWasReplaced /\ NoLostInFlight
 \* prints the stimuli of the counterexample when violated
 Directed == held # {} \/ AllInv \/ (PrintT(<<"HIST", ToJson(hist)>>) /\ FALSE)
-DView == <<sess, trk, cst, wch, prevOpen, peers, lst, lusurp, lsent, lwch, lstale, lx, badDeliv, dropFlag, badReq, held, stuck>>
+DView == <<sess, trk, cst, wch, prevOpen, peers, lst, lusurp, lsent, lwch, lstale, lx, badDeliv, dropFlag, badReq, pend, held, stuck>>
 =============================================================================
